@@ -53,7 +53,16 @@ func (e *Engine) genVC(fn *ssa.Function, dropped map[string]bool, mode string) (
 	}()
 	vc.run()
 	if c != nil {
+		anyHit := false
 		for _, cs := range c.CallSites {
+			anyHit = anyHit || vc.csHit[cs]
+		}
+		for _, cs := range c.CallSites {
+			// a clause labelled opt-* names a call that exists only in some build configurations (assembly back end
+			// vs portable fallback); it may be absent as long as some callsite clause of the function applies.
+			if !vc.csHit[cs] && cs.Cl != nil && strings.HasPrefix(cs.Cl.Label, "opt-") && anyHit {
+				continue
+			}
 			if !vc.csHit[cs] {
 				return vc, fmt.Errorf("contract error: callsite %s#%d not found in %s", cs.Name, cs.K, fn)
 			}
